@@ -1782,3 +1782,26 @@ N('c07-param16-bounds-first', 'C07', PARAMHELP,
 B('c07-matrix-cells-own-clamp', 'C07', 'R07.b', MATRIX,
   "            raw_color.append(param_16(param))",
   "            if param < 0.0:\n                param = 0\n            elif param > 65535.0:\n                param = 65535\n            else:\n                param = round(param)\n            raw_color.append(param)")
+
+# ------------------------------------------------------------------ round 6
+B('c04-end-loop-clears-eval-stack', 'C04', 'R04.m', MACHINE,
+  "    def _end_loop(self) -> None:\n        self._call_stack.exit_loop()\n",
+  "    def _end_loop(self) -> None:\n        self._call_stack.exit_loop()\n        self._vm_math.reset()\n")
+B('c05-runtime-loaded-last', 'C05', 'R05.j', LOADER,
+  "        self._routines.clear()\n        self._load_runtime()\n        if instructions is not None:",
+  "        self._routines.clear()\n        if instructions is not None:",
+  LOADER,
+  "                inst = self._next_inst()\n\n    @inject(i_runtime.Runtime)\n    def _load_runtime",
+  "                inst = self._next_inst()\n        self._load_runtime()\n\n    @inject(i_runtime.Runtime)\n    def _load_runtime")
+B('c06-string-regex-nested-repeat', 'C06', 'R06.q', LEX,
+  "_LITERAL_STRING_SPEC = r'\"([^\"]|(?<=\\\\)\")*\"'", "_LITERAL_STRING_SPEC = r'\"([^\"]+|(?<=\\\\)\")*\"'")
+B('c09-flag-armed-after-clock-start', 'C09', 'R09.i', MACHINE,
+  "        self._keep_running = True\n\n        logging.debug('Starting to execute.')\n        self._clock.start()\n",
+  "        logging.debug('Starting to execute.')\n        self._clock.start()\n        self._keep_running = True\n")
+B('c16-register-words-case-folded', 'C16', 'R16.j', LEX,
+  "        if word in self._REG_LIST:", "        if word.lower() in self._REG_LIST:")
+N('c16-register-words-as-set', 'C16', LEX,
+  "        if word in self._REG_LIST:", "        if word in set(self._REG_LIST):")
+N('c05-runtime-loaded-first-reordered', 'C05', LOADER,
+  "        self._main_segment.clear()\n        self._routine_segment.clear()\n        self._routines.clear()\n        self._load_runtime()\n",
+  "        self._routines.clear()\n        self._load_runtime()\n        self._main_segment.clear()\n        self._routine_segment.clear()\n")
